@@ -183,7 +183,7 @@ func (s *Solver) readLine() (string, error) {
 
 // Check decides satisfiability of pc ∧ extra (extra may be nil). If wantModel
 // and sat, the values of all declared variables are returned.
-func (s *Solver) Check(pc []*Term, extra *Term, wantModel bool) (Result, Model) {
+func (s *Solver) Check(pc []*Term, extra *Term, wantModel bool, vars []*Term) (Result, Model) {
 	start := time.Now()
 	defer func() {
 		d := time.Since(start)
@@ -238,7 +238,7 @@ func (s *Solver) Check(pc []*Term, extra *Term, wantModel bool) (Result, Model) 
 	}
 	var m Model
 	if res == Sat && wantModel {
-		m = s.getModel()
+		m = s.getModel(vars)
 	}
 	if extra != nil {
 		s.send("(pop 1)")
@@ -246,9 +246,11 @@ func (s *Solver) Check(pc []*Term, extra *Term, wantModel bool) (Result, Model) 
 	return res, m
 }
 
-func (s *Solver) getModel() Model {
+func (s *Solver) getModel(vars []*Term) Model {
 	m := Model{}
-	vars := s.ctx.VarL
+	if vars == nil {
+		vars = s.ctx.VarL
+	}
 	var names []*Term
 	for _, v := range vars {
 		if s.declared[v.Name] {
